@@ -460,7 +460,10 @@ func parallel[C any](cases []C, workers int, fn func(m *Model, c C)) {
 			}
 		}()
 	}
-	for _, c := range cases {
+	for i, c := range cases {
+		if i%400 == 399 {
+			otherUses()
+		}
 		ch <- c
 	}
 	close(ch)
